@@ -275,11 +275,18 @@ Fixpoint mins_go (acc : N) (l : list atom) : atom :=
 Definition bif_min (l : list atom) : atom :=
   match l with ANum n :: r => minz_go n r | AStr s :: r => mins_go s r | _ => ANull end.
 
-(* max skips nulls after the first element *)
+(* max at the pinned commit skipped nulls after the first element (repaired in /repo by a fix of C08: now as min) *)
+Fixpoint maxz_go_orig (acc : Z) (l : list atom) : atom :=
+  match l with [] => ANum acc | ANum v :: r => maxz_go_orig (if Z.ltb acc v then v else acc) r | ANull :: r => maxz_go_orig acc r | _ => ANull end.
+Fixpoint maxs_go_orig (acc : N) (l : list atom) : atom :=
+  match l with [] => AStr acc | AStr v :: r => maxs_go_orig (if N.ltb acc v then v else acc) r | ANull :: r => maxs_go_orig acc r | _ => ANull end.
+Definition bif_max_orig (l : list atom) : atom :=
+  match l with ANum n :: r => maxz_go_orig n r | AStr s :: r => maxs_go_orig s r | _ => ANull end.
+
 Fixpoint maxz_go (acc : Z) (l : list atom) : atom :=
-  match l with [] => ANum acc | ANum v :: r => maxz_go (if Z.ltb acc v then v else acc) r | ANull :: r => maxz_go acc r | _ => ANull end.
+  match l with [] => ANum acc | ANum v :: r => maxz_go (if Z.ltb acc v then v else acc) r | _ => ANull end.
 Fixpoint maxs_go (acc : N) (l : list atom) : atom :=
-  match l with [] => AStr acc | AStr v :: r => maxs_go (if N.ltb acc v then v else acc) r | ANull :: r => maxs_go acc r | _ => ANull end.
+  match l with [] => AStr acc | AStr v :: r => maxs_go (if N.ltb acc v then v else acc) r | _ => ANull end.
 Definition bif_max (l : list atom) : atom :=
   match l with ANum n :: r => maxz_go n r | AStr s :: r => maxs_go s r | _ => ANull end.
 
@@ -437,7 +444,7 @@ Definition hit_policy (t : table) (xs : list atom) : outcome :=
       match matching t xs with [] => default_value t | m => OOne (RAtom (ANum (Z.of_nat (length m)))) end
   | PCollect ASum => aggregate bif_sum t xs
   | PCollect AMin => aggregate bif_min t xs
-  | PCollect AMax => aggregate bif_max t xs
+  | PCollect AMax => aggregate (if orig then bif_max_orig else bif_max) t xs
   end.
 
 Definition dt_impl_gen (t : table) (xs : list atom) : outcome :=
@@ -581,12 +588,7 @@ Definition entry_typed (x : atom) (ic : iclause) (e : utest) : bool :=
   value_typed x e && match i_values ic with None => true | Some vs => forallb (item_typed (kind_of x)) vs end.
 
 (* well-typed evaluation: one non-null input value per input clause, every literal of the clause's
-   entries and allowed values has the kind of the value; under C> no output of a rule is null
-   (bifs::core::max skips nulls, FEEL max does not) *)
+   entries and allowed values has the kind of the value *)
 Definition typed (t : table) (xs : list atom) : bool :=
   Nat.eqb (length xs) (length (t_inputs t)) &&
-  forallb (fun r => all3 entry_typed xs (t_inputs t) (r_in r)) (t_rules t) &&
-  match t_policy t with
-  | PCollect AMax => forallb (fun r => forallb nonnull (spec_outs t r)) (t_rules t)
-  | _ => true
-  end.
+  forallb (fun r => all3 entry_typed xs (t_inputs t) (r_in r)) (t_rules t).
